@@ -161,6 +161,10 @@ pub struct ScriptSource<T: Clone + Send + Sync + 'static> {
     consumed: Option<Arc<std::sync::atomic::AtomicUsize>>,
     /// virtual-clock advance (ms) applied before handing out the i-th element
     delays: Option<Arc<Vec<u64>>>,
+    /// per replica: the replica sleeps `sleeps[replica][i]` ms (virtual time) before handing out
+    /// its i-th element - a slow source inside a running job
+    sleeps: Option<Arc<Vec<Vec<u64>>>>,
+    my_sleeps: Vec<u64>,
     pos: usize,
 }
 
@@ -172,11 +176,18 @@ impl<T: Clone + Send + Sync + 'static> ScriptSource<T> {
             mine: Default::default(),
             consumed: None,
             delays: None,
+            sleeps: None,
+            my_sleeps: vec![],
             pos: 0,
         }
     }
     pub fn counted(mut self, c: Arc<std::sync::atomic::AtomicUsize>) -> Self {
         self.consumed = Some(c);
+        self
+    }
+    /// Replica r sleeps `sleeps[r][i]` ms of virtual time before handing out its i-th element.
+    pub fn sleeping(mut self, sleeps: Vec<Vec<u64>>) -> Self {
+        self.sleeps = Some(Arc::new(sleeps));
         self
     }
     /// Advance the virtual clock by `delays[i]` milliseconds before element `i` is handed out.
@@ -216,6 +227,9 @@ impl<T: Clone + Send + Sync + 'static> Operator for ScriptSource<T> {
         let g = metadata.global_id as usize;
         let script = self.scripts.get(g).cloned().unwrap_or_default();
         self.mine = complete_script(script).into();
+        if let Some(sl) = &self.sleeps {
+            self.my_sleeps = sl.get(g).cloned().unwrap_or_default();
+        }
     }
     fn next(&mut self) -> StreamElement<T> {
         if let Some(d) = &self.delays {
@@ -223,6 +237,11 @@ impl<T: Clone + Send + Sync + 'static> Operator for ScriptSource<T> {
                 if *ms > 0 {
                     crate::rt::advance(std::time::Duration::from_millis(*ms));
                 }
+            }
+        }
+        if let Some(ms) = self.my_sleeps.get(self.pos) {
+            if *ms > 0 {
+                renoir::verif::thread::sleep(std::time::Duration::from_millis(*ms));
             }
         }
         self.pos += 1;
